@@ -709,8 +709,13 @@ def rule_hooks_pass_values_through(repo: Repo, rep, rule: str = "R16.16") -> Non
     n = 0
     for maker in ("_make_dataclass_structure_fn", "_make_dataclass_unstructure_fn"):
         for q, fn in sorted(conv.functions.items()):
+            # `f = maker(cls)` (possibly fetched from a per-class memo first) ... `f(value)`: the names that can hold the generated function
+            holders = {t.id for st in ast.walk(fn.node) if isinstance(st, ast.Assign) and isinstance(st.value, ast.Call) and (dotted(st.value.func) or "").split(".")[-1] == maker
+                       for t in st.targets if isinstance(t, ast.Name)}
             for c in calls_in(fn.node):
-                if not (isinstance(c.func, ast.Call) and (dotted(c.func.func) or "").split(".")[-1] == maker and c.args):
+                direct = isinstance(c.func, ast.Call) and (dotted(c.func.func) or "").split(".")[-1] == maker
+                via = isinstance(c.func, ast.Name) and c.func.id in holders
+                if not ((direct or via) and c.args):
                     continue
                 # the innermost function definition that contains the call
                 owner = None
